@@ -300,4 +300,86 @@ theorem parseImpl_err_invalid (sd : Bool) (bs : Bytes) (e : Err) (h : parseImpl 
     · simp at h
 
 
+
+/-! ### Helpers -/
+
+/-- On an accepted packet the frame-count helper agrees with the parser. -/
+theorem getNbFrames_agrees (bs : Bytes) (hb : BytesOk bs) (r : Parsed) (h : parseImpl false bs = .ok r) :
+    getNbFrames bs = .ok r.count := by
+  obtain ⟨p, rest, hv, hbs, hr, hview⟩ := parse_sound false bs hb r h
+  subst hview
+  have hrest := hr rfl
+  subst hrest
+  have h4 : p.toc % 4 < 4 := Nat.mod_lt _ (by decide)
+  have hcases : p.code = 0 ∨ p.code = 1 ∨ p.code = 2 ∨ p.code = 3 := by unfold Packet.code; omega
+  have hser : serialize false p = p.toc :: ((if p.code = 3 then [countByte p] ++ padHdrOf p else []) ++
+      (lenFields false p).flatMap encLen ++ p.frames.flatten ++ padBytes p) := by
+    simp [serialize, header, padHdrOf]
+    by_cases hc3 : p.code = 3
+    · simp [hc3]; cases p.pad <;> rfl
+    · simp [hc3]
+  rw [hbs, List.append_nil, hser]
+  unfold getNbFrames
+  simp only [view]
+  rcases hcases with hc | hc | hc | hc
+  · have : p.toc % 4 = 0 := hc
+    simp [this, (hv.code0 hc).1]
+  · have : p.toc % 4 = 1 := hc
+    simp [this, (hv.code1 hc).1]
+  · have : p.toc % 4 = 2 := hc
+    simp [this, (hv.code2 hc).1]
+  · have h3 : p.toc % 4 = 3 := hc
+    obtain ⟨h1, h2, _⟩ := hv.code3 hc
+    have hge := frameDur48_ge p.toc (List.mem_range.mpr hv.toc_byte)
+    have hn : p.frames.length < 64 := by
+      apply Decidable.byContradiction; intro hgt
+      have : 120 * 64 ≤ frameDur48 p.toc * p.frames.length := Nat.mul_le_mul hge (by omega)
+      omega
+    simp [h3, hc, countByte_mod p hn]
+
+/-- `opus_packet_has_lbrr` (repaired code) never reads outside the packet. -/
+theorem hasLbrr_nofault (bs : Bytes) (hb : BytesOk bs) : fault (hasLbrr bs) = false := by
+  unfold hasLbrr
+  cases bs with
+  | nil => rfl
+  | cons toc data =>
+    simp only
+    split
+    · rfl
+    · have hnf := parseImpl_nofault false (toc :: data)
+      split
+      · rename_i r hr
+        obtain ⟨p, rest, hv, hbs, hrr, hview⟩ := parse_sound false (toc :: data) hb r hr
+        have hrest := hrr rfl
+        subst hrest
+        subst hview
+        simp only [view]
+        cases hfr : p.frames with
+        | nil =>
+          exfalso
+          have h4 : p.toc % 4 < 4 := Nat.mod_lt _ (by decide)
+          have hcases : p.code = 0 ∨ p.code = 1 ∨ p.code = 2 ∨ p.code = 3 := by unfold Packet.code; omega
+          rcases hcases with hc | hc | hc | hc
+          · have := (hv.code0 hc).1; rw [hfr] at this; simp at this
+          · have := (hv.code1 hc).1; rw [hfr] at this; simp at this
+          · have := (hv.code2 hc).1; rw [hfr] at this; simp at this
+          · have := (hv.code3 hc).1; rw [hfr] at this; simp at this
+        | cons f0 fs =>
+          simp only [Packet.lens, hfr, List.map_cons]
+          split
+          · rfl
+          · rename_i hne
+            have hdrop : (toc :: data).drop (header false p).length = p.frames.flatten ++ padBytes p := by
+              rw [hbs, List.append_nil]; simp [serialize]
+            rw [hdrop, hfr]
+            cases f0 with
+            | nil => simp at hne
+            | cons b f0' =>
+              simp only [List.flatten_cons, List.cons_append]
+              split <;> rfl
+      · rfl
+      · rename_i h; rw [h] at hnf; simp [fault] at hnf
+      · rename_i h; rw [h] at hnf; simp [fault] at hnf
+
+
 end Opus.FramingProofs
